@@ -1381,3 +1381,48 @@ def empty_collection(ctx, repo, scope=("",), rule="EMPTY-COLL", _self=False):
 
 NEW8 = [empty_collection]
 GENERIC.extend(NEW8)
+
+
+# ---------------------------------------------------------------------------
+# OVERWRITE: two consecutive stores to the same target
+# ---------------------------------------------------------------------------
+_POSITIVE["OVERWRITE"] = '''
+class FlavorData:
+    def __init__(self, data):
+        self.majorVersion = data.majorVersion
+        self.majorVersion = data.minorVersion
+        self.metaData = data.metaData
+'''
+OVERWRITE_AUDIT = {}
+
+
+def overwrite(ctx, repo, scope=("",), rule="OVERWRITE", _self=False):
+    ctx.rule(rule, "two consecutive assignments never store to the same target unless the second reads it: the first value is lost before anything can see it, and the field the second line was meant for (the next one of a block of field copies) is never set", floor=1)
+    if not _self:
+        _selfcheck(ctx, rule, overwrite)
+    for rel in sorted(repo.rels()):
+        if not _in_scope(rel, scope):
+            continue
+        m = repo.mod(rel)
+        total = 0
+        bad = []
+        for node in ast.walk(m.tree):
+            for fld in ("body", "orelse", "finalbody"):
+                blk = getattr(node, fld, None)
+                if not isinstance(blk, list):
+                    continue
+                for a, b in zip(blk, blk[1:]):
+                    if isinstance(a, ast.Assign) and isinstance(b, ast.Assign) and len(a.targets) == 1 and len(b.targets) == 1 and isinstance(a.targets[0], (ast.Attribute, ast.Subscript, ast.Name)):
+                        total += 1
+                        t = norm(a.targets[0])
+                        if t != norm(b.targets[0]) or t in norm(b.value):
+                            continue
+                        if (rel, t) in OVERWRITE_AUDIT:
+                            continue
+                        bad.append(f"line {a.lineno}: `{norm(a)[:50]}` is overwritten by `{norm(b)[:50]}`")
+        if total:
+            ctx.ob(rule, f"{rel}:<module>", f"{total} pairs of consecutive assignments store to different targets", not bad, "; ".join(bad[:3]))
+
+
+NEW9 = [overwrite]
+GENERIC.extend(NEW9)
